@@ -21,6 +21,10 @@ WORK = os.environ.get("VERIF_WORK") or os.path.join(ROOT, ".work", "r%d" % os.ge
 os.environ["VERIF_WORK"] = WORK
 EVID = os.path.join(ROOT, "evidence")
 REPLAYS = os.path.join(ROOT, "replays")
+if os.path.realpath(os.environ.get("VERIF_REPO", "/repo")) != "/repo":
+    # a run against another tree (seeded changes) must not overwrite the evidence of /repo itself
+    _alt = os.path.join(ROOT, ".work", "alt_" + os.path.basename(os.path.realpath(os.environ["VERIF_REPO"])))
+    EVID, REPLAYS = os.path.join(_alt, "evidence"), os.path.join(_alt, "replays")
 REPO = os.environ.get("VERIF_REPO", "/repo")
 PY = "/venv/bin/python"
 NCPU = int(os.environ.get("VERIF_CPUS", "16"))
